@@ -281,7 +281,7 @@ func RunO4Hs(x *Ctx) {
 		sc := NewConn()
 		x.feed(sc, rng, in)
 		scall := x.o4StartServer(w, sc)
-		good := x.FinishHandshake(sc, scall, HsOpts{ConsumedBound: B("obfs4-hs"), ClosesOnFail: true, DiscardsOnFail: true,
+		good := x.FinishHandshake(sc, scall, HsOpts{ConsumedBound: B("obfs4-hs"), ClosesOnFail: true, DiscardsOnFail: true, Kind: "obfs4srv",
 			ExpectSuccess: isValid && c.Cut != "reset"})
 		x.R.Count(c.Prefix()+"/outcome", x.Outcome)
 		x.R.Sample(3, map[string]interface{}{"case": c.Key(), "input": desc, "outcome": x.Outcome, "log": LogSummary(sc.Log())})
@@ -306,7 +306,7 @@ func RunO4Hs(x *Ctx) {
 	var other []byte
 	in, desc, isValid := hsInput(x, rng, resp, other, o4RespRegions(len(resp)), 64, o4HsLens, 8192)
 	x.feed(cc, rng, in)
-	good := x.FinishHandshake(cc, ccall, HsOpts{ConsumedBound: B("obfs4-hs"), ClosesOnFail: true, ExpectSuccess: isValid && c.Cut != "reset"})
+	good := x.FinishHandshake(cc, ccall, HsOpts{ConsumedBound: B("obfs4-hs"), ClosesOnFail: true, Kind: "plain", ExpectSuccess: isValid && c.Cut != "reset"})
 	x.R.Count(c.Prefix()+"/outcome", x.Outcome)
 	x.R.Sample(3, map[string]interface{}{"case": c.Key(), "input": desc, "outcome": x.Outcome, "log": LogSummary(cc.Log())})
 	if good {
